@@ -170,6 +170,15 @@ Definition dc_spec_violation (c : dcase) : bool :=
 Definition dc_check_all (cs : list dcase) : list Z * list Z :=
   (map (fun c => c_id (dc_case c)) (filter dc_mismatch cs), map (fun c => c_id (dc_case c)) (filter dc_spec_violation cs)).
 
+(* bodies read through a reader that fails part-way (Decode.v fr_violation): the request failed, or its rows are those of ALL
+   logs the walk finds in the document (a free-form ddtags text is read by the model, not by the harness) *)
+Definition dc_fr_violation (c : dcase) : bool :=
+  match dc_logs c with
+  | Some l => fr_violation (with_ddbody (dc_case c) l)
+  | None => false
+  end.
+Definition dc_fr_check_all (cs : list dcase) : list Z * list Z := ([], map (fun c => c_id (dc_case c)) (filter dc_fr_violation cs)).
+
 Open Scope Z_scope.
 (* ---------------------------------------------------------------- Datadog metrics: datadogMetricsJsonUnmarshal.go *)
 (* MaybeString / MaybeObj / MaybeArr return without consuming a value of another type, so the object loop of jx fails on
